@@ -41,7 +41,7 @@ CHECKS = {
     ),
     'C05': dict(
         category='exploration',
-        text='The same generated editing histories as C04 plus an exhaustive enumeration of all histories of length <=3 (quick) / <=4 (thorough) over a 28-call reduced alphabet on 2-3 qubits; after EVERY step all derived views (next/prev/front/rear/first_on/last_on, counters, coupling graph, depth, params, forward/reverse/with-cycles iteration) are recomputed from the grid through the public read API and compared, and any exception other than a documented rejection is a violation keyed by its innermost bqskit frame.',
+        text='The same generated editing histories as C04 plus an exhaustive enumeration of all histories of length <=3 (quick) / <=4 (thorough) over a 31-call reduced alphabet on 2-3 qubits; after EVERY step all derived views (next/prev/front/rear/first_on/last_on, counters, coupling graph, depth, params, forward/reverse/with-cycles iteration) are recomputed from the grid through the public read API and compared, and any exception other than a documented rejection is a violation keyed by its innermost bqskit frame.',
         design_ref='DESIGN.md §4 C05',
         note='Trusted: the grid (operation at cycle,qudit) as primary view. The exhaustive part is complete only for the stated alphabet/length; the rest is exploration.',
         technique='invariant checking over generated and exhaustively enumerated call histories (Hypothesis + itertools.product)',
